@@ -695,6 +695,11 @@ class World:
         tz_was = _os.environ.get("TZ")
         _os.environ["TZ"] = self.knobs.get("tz", "UTC")  # the process' time zone is part of the configuration
         _t.tzset()
+        import tempfile as _tf
+        tmp_was = _tf.tempdir
+        _tf.tempdir = "/SIMFS/tmp"  # the system temp directory lives in the simulated world too
+        if self.knobs.get("tmp_other_device", True):
+            self.fs.other_device_prefix = "/SIMFS/tmp"
         home_was = _os.environ.get("HOME")
         if self.knobs.get("tilde_path"):
             _os.environ["HOME"] = "/SIMFS/home"
@@ -738,6 +743,7 @@ class World:
                 interpose.unbind()
                 if gc_was:
                     gc.enable()
+                _tf.tempdir = tmp_was
                 if self.knobs.get("tilde_path"):
                     if home_was is None:
                         _os.environ.pop("HOME", None)
@@ -767,6 +773,7 @@ class World:
     def _run_inner(self):
         k = self.knobs
         self.fs.h_mkdirs("/SIMFS")
+        self.fs.h_mkdirs("/SIMFS/tmp")
         if self.cwd:
             self.fs.h_mkdirs(self.cwd)
         if self.knobs.get("tilde_path"):
